@@ -71,7 +71,10 @@ def oracle_recording(strategy, scitype):
         wl, steps = case["wl"], case["fh"]
         n = case["n"]
         doubles.LOG.clear()
-        reg = doubles.RecordingRegressor(tag=3) if tab else doubles.RecordingTSRegressor(tag=3)
+        reg = doubles.RecordingRegressor(tag=3) if tab else (
+            doubles.RecordingTSRegressorDual(tag=3) if case.get("ts_dual") else doubles.RecordingTSRegressor(tag=3))
+        if not tab and case.get("ts_dual"):
+            ctx.label("time_series_regressor_with_sklearn_mixin")
         via = bool(case.get("wl_via_set_params"))
         f = sut(make_reduction, reg, strategy=strategy, window_length=(wl + 2) if via else wl,
                 scitype=case["scitype_arg"] if case["scitype_arg"] == "infer" else scitype)
@@ -368,7 +371,7 @@ def cases(draw, strategy=None, allow_exog=True, feasible_bias=9):
         "start": draw(gen.index_start), "index_kind": draw(gen.index_kind),
         "fh_kind": draw(st.sampled_from(["list", "array", "fh", "int"])),
         "fh_at_predict": draw(st.sampled_from(["none", "same"])),
-        "scitype_arg": draw(st.sampled_from(["infer", "explicit"])),
+        "scitype_arg": draw(st.sampled_from(["infer", "explicit"])), "ts_dual": draw(st.booleans()),
         "dtype": draw(st.sampled_from(["float64", "float64", "int64"])),
         "prefit": draw(st.integers(0, 4)) == 0,
         "revision": draw(st.sampled_from([None, None, 1, 2, 3])), "fh_abs": draw(st.integers(0, 3)) == 0, "wl_via_set_params": draw(st.integers(0, 3)) == 0,
